@@ -25,7 +25,8 @@ RULE = ("model trees of depth <= 5 assembled with the public model constructors:
         "swapped / retyped / inserted / respelled with compatibility characters, templates nested into each other; "
         "(c) the templates themselves; (d) a regression corpus: the input class behind every repaired mechanism in "
         "several spellings and host forms (run completely by every worker, gate: every class exercised) and "
-        "mutants of its items. "
+        "mutants of its items; (e) every combination of absent / empty / non-empty body, except, else and finally "
+        "clauses of try and the analogous empty-clause shapes of while, for, with, cond, match, defclass, if, fn, let. "
         "Non-trivial = tree depth >= 2; distinct by (head, argument-shape signature, outcome class).")
 FLOOR = {"quick": 3000, "thorough": 12000}
 BUDGET = {"quick": 26, "thorough": 600}
@@ -657,6 +658,28 @@ class _M25:
     norm = staticmethod(_rewrite(_compat_wildcard, lambda n: G.S("_")))
 
 
+
+def _nan_complex(c):
+    return c["t"] == "Complex" and any(x.lstrip("+-") == "nan" for x in c["v"])
+
+
+def _set_of_nan_complex(n):
+    return n["t"] == "Set" and sum(1 for c in n["c"] if _nan_complex(c)) >= 2
+
+
+def _definan(n):
+    fix = lambda c: dict(c, v=["1.0" if x.lstrip("+-") == "nan" else x for x in c["v"]]) if _nan_complex(c) else c
+    return dict(n, c=[fix(c) for c in n["c"]])
+
+
+# a CPython defect reachable through Hy: a frozenset constant (folded set display) holding two
+# or more complex numbers with a NaN component cannot be marshalled
+@mechanism("marshal-frozenset-of-nan-complex-constants", r"V:marshal:MemoryError")
+class _M26:
+    has = staticmethod(_has(_set_of_nan_complex))
+    norm = staticmethod(_rewrite(_set_of_nan_complex, _definan))
+
+
 # --------------------------------------------------------------------- cases
 
 def cases(seed, tier, shard, nshards):
@@ -676,6 +699,11 @@ def cases(seed, tier, shard, nshards):
     corpus = G.regress_corpus()
     for key, ir in corpus:
         yield {"ir": ir, "mode": "regress", "head": "<regress>", "regress": key}
+    # (e) empty-clause shapes of try / while / for / with / cond / match / defclass / if ...:
+    # a small exhaustive section, dealt to the shards
+    for k, (key, ir) in enumerate(G.empty_clause_corpus()):
+        if k % nshards == shard:
+            yield {"ir": ir, "mode": "clauses", "head": "<regress>", "regress": key}
     i = 0
     while True:
         rng = rng_for(seed, ID, shard, i)
